@@ -1,6 +1,7 @@
 import Generated.SSA_Geom
 import Model.Geom
 import Mathlib.Tactic.SplitIfs
+import Mathlib.Tactic.Tauto
 /-! C18 / C07, translator tie: the bridge between the definitions that `gossa/ssagen … geom` regenerates from package
     `xmath/geom` (`Generated/SSA_Geom.lean`: generic over an abstract coordinate type `α` with exactly the operations the
     Go body uses; `Rect[T]` is a `Point[T]` and a `Size[T]` as in the source) and the hand-written model
@@ -19,8 +20,8 @@ end GenTieGeom
 /-- `geo_tie [the generated definition, its model function] [model helpers]`: state a `Bool` equation as an
     equivalence; unfold the two functions under study while turning `Bool` connectives into propositions, THEN the
     helpers they call (every other generated definition, `gen_def`, and the listed model helpers), THEN the flattening
-    maps — in this order, so that the `Decidable` instance under a `decide` still matches its proposition when the
-    `decide` is removed; split every `if`; close each case propositionally (the comparisons of `α` are opaque atoms) -/
+    maps — in this order and with the `if`s split after each step, so that the `Decidable` instance of a `decide` or an
+    `if` still matches its proposition when it is eliminated; close each case propositionally (`simp_all`, `tauto`: the comparisons of `α` are opaque atoms) -/
 syntax "geo_tie" "[" Lean.Parser.Tactic.simpLemma,* "]" "[" Lean.Parser.Tactic.simpLemma,* "]" : tactic
 macro_rules
   | `(tactic| geo_tie [$ts,*] []) => `(tactic| geo_tie [$ts,*] [eq_self_iff_true])
@@ -29,11 +30,13 @@ macro_rules
       (simp only [$ts,*, Bool.and_eq_true, Bool.or_eq_true, decide_eq_true_eq, Bool.ite_eq_true_distrib,
         Bool.ite_eq_false_distrib, Bool.not_eq_true', decide_eq_false_iff_not, Bool.false_eq_true, Bool.true_eq_false,
         eq_self_iff_true]) <;>
+      (try split_ifs) <;>
       (try simp only [gen_def, $ls,*, Bool.and_eq_true, Bool.or_eq_true, decide_eq_true_eq, Bool.ite_eq_true_distrib,
         Bool.ite_eq_false_distrib, Bool.not_eq_true', decide_eq_false_iff_not, Bool.false_eq_true, Bool.true_eq_false,
-        eq_self_iff_true]) <;>
-      (try simp only [GenTieGeom.flatP, GenTieGeom.flatR, GenTieGeom.flatI, GenTieGeom.flatM, gt_iff_lt, ge_iff_le]) <;>
-      (try split_ifs) <;> (repeat' split) <;>
+        eq_self_iff_true] at *) <;>
+      (try split_ifs at *) <;>
+      (try simp only [GenTieGeom.flatP, GenTieGeom.flatR, GenTieGeom.flatI, GenTieGeom.flatM, gt_iff_lt, ge_iff_le]
+        at *) <;>
       first
       | with_reducible rfl
       | (simp_all only [not_true_eq_false, not_false_eq_true, and_self, and_true,
@@ -41,4 +44,6 @@ macro_rules
           iff_false, false_iff, not_and, not_or, not_not, imp_self, implies_true, Geom.Rect.mk.injEq,
           Geom.Point.mk.injEq, gt_iff_lt, ge_iff_le, Geom.Rect.zero, decide_eq_decide] <;> done)
       | (simp_all <;> done)
-      | ((try simp_all) <;> (repeat' split) <;> (try simp_all) <;> done))
+      | ((try simp_all) <;> (repeat' split) <;> (try simp_all) <;> done)
+      | tauto
+      | ((try simp only [if_false_right, if_false_left, if_true_left, if_true_right] at *) <;> tauto))
